@@ -158,6 +158,59 @@ def check(mod, run, a):
     P.prove_all(run.obs, lambda ob: ob.info.get('inputs', []))
     run.prover = P
     run.obs += getattr(P, 'cut_obligations', [])
+    # ---- consistency audit: the hypothesis set a proof was found from (path condition + instantiated facts + object-identity axioms, exactly as
+    # the prover built it) must itself be satisfiable for at least one discharged obligation of every contract, otherwise the 'proofs' of that
+    # contract are vacuous (contradictory axioms or contracts); an individual infeasible path is legitimate
+    audit = {}
+    for ob in run.obs:
+        if ob.status != 'unsat' or ob.backend in (None, 'simplifier') or ob.kind in ('cover', 'lemma'): continue
+        k = (ob.info.get('config'), ob.info.get('contract', ob.info.get('fn')))
+        audit.setdefault(k, []).append(ob)
+    axiom_ids = set()
+    for eng_ in engines: axiom_ids |= getattr(eng_, 'axiom_ids', set())
+    a_tasks = []
+    for k, obs_ in audit.items():
+        step = max(1, len(obs_) // 12)
+        for ob in obs_[::step]:
+            # (1) the definitional part of the hypotheses (object-identity axioms recorded during execution + those the prover adds) must be
+            #     satisfiable on its own, whatever the path
+            try:
+                hy, _gl = smt.expand(ob, relevant=False)
+                ax = [h for h in hy if isinstance(h, z3.ExprRef) and h.get_id() in axiom_ids]
+                if smt.AXIOMATIZER is not None: ax = ax + smt.AXIOMATIZER(hy + [_gl])
+            except Exception:
+                continue
+            t_ = prove.Task(None, 'axioms-consistent:%s' % ob.name, ax, z3.BoolVal(False), [('z3-5.1.0', 6), ('cvc5-1.0.3', 6)])
+            t_.k = k; t_.what = 'axioms'; a_tasks.append(t_)
+        picks = obs_[:2] + obs_[-2:] + obs_[len(obs_) // 2: len(obs_) // 2 + 1]
+        seen_ = set()
+        for ob in picks:
+            if id(ob) in seen_: continue
+            seen_.add(id(ob))
+            q = getattr(ob, 'smt2', None)
+            if not q or '(check-sat)' not in q: continue
+            # (2) the exact query that was answered 'unsat', with its last assertion (the negated goal) removed
+            head_, tail_ = q.rsplit('(check-sat)', 1)
+            cut = head_.rfind('\n(assert')
+            if cut < 0: continue
+            t_ = prove.Task(None, 'hypotheses-consistent:%s' % ob.name, [], z3.BoolVal(False), [(ob.backend.split('+')[0] if ob.backend.split('+')[0] in ('z3-5.1.0', 'cvc5-1.0.3', 'z3-4.8.12') else 'z3-5.1.0', 8), ('cvc5-1.0.3', 6)])
+            t_.smt2 = head_[:cut] + '\n(check-sat)\n'; t_.status = None; t_.backend = None
+            t_.k = k; t_.what = 'hyps'; a_tasks.append(t_)
+    prove.run_tasks(a_tasks)
+    a_res = {}
+    for t_ in a_tasks:
+        if t_.what == 'hyps': a_res.setdefault(t_.k, []).append(t_.status)
+        elif t_.status == 'unsat':
+            msg_ = 'the object-identity axioms used for %s are contradictory (e.g. %s)' % (t_.k[1], t_.label)
+            if not any(v.startswith(msg_.split(' (e.g.')[0]) for v in vacuous): vacuous.append(msg_)
+    hy_ = [t_ for t_ in a_tasks if t_.what == 'hyps']; ax_ = [t_ for t_ in a_tasks if t_.what == 'axioms']
+    run.vacuity['consistency_audit'] = {'contracts': len(audit), 'hypothesis_samples': len(hy_), 'satisfiable': sum(1 for t_ in hy_ if t_.status == 'sat'),
+                                        'unknown': sum(1 for t_ in hy_ if t_.status not in ('sat', 'unsat')), 'contradictory': sum(1 for t_ in hy_ if t_.status == 'unsat'),
+                                        'axiom_samples': len(ax_), 'axioms_satisfiable': sum(1 for t_ in ax_ if t_.status == 'sat'),
+                                        'axioms_unknown': sum(1 for t_ in ax_ if t_.status not in ('sat', 'unsat'))}
+    for k, sts in a_res.items():
+        if sts and all(s == 'unsat' for s in sts):
+            vacuous.append('every sampled hypothesis set of %s [%s] is contradictory' % (k[1], k[0]))
     # covers: 'not g' must be refutable (the situation g is reachable); a proved 'not g' means the contract is vacuous there
     covers = [ob for ob in run.obs if ob.kind == 'cover']
     run.obs = [ob for ob in run.obs if ob.kind != 'cover']
